@@ -1,0 +1,53 @@
+//go:build verif
+
+package version
+
+// VerifC02State returns the family's current version and its active versions
+// (read under the family lock, as GetAllActiveFiles does).
+func VerifC02State(fv FamilyVersion) (current Version, active []Version) {
+	f, ok := fv.(*familyVersion)
+	if !ok {
+		return nil, nil
+	}
+	f.mutex.RLock()
+	defer f.mutex.RUnlock()
+	for _, v := range f.activeVersions {
+		active = append(active, v)
+	}
+	return f.current, active
+}
+
+// VerifC02Level returns the level (or -1) at which version v lists fileNumber.
+func VerifC02Level(v Version, fileNumber int64) int {
+	for l, lv := range v.Levels() {
+		for _, fm := range lv.getFiles() {
+			if fm.GetFileNumber().Int64() == fileNumber {
+				return l
+			}
+		}
+	}
+	return -1
+}
+
+// VerifC02NextFileNumber returns the next table file number the store would hand out.
+func VerifC02NextFileNumber(vs StoreVersionSet) int64 {
+	s, ok := vs.(*storeVersionSet)
+	if !ok {
+		return -1
+	}
+	return s.nextFileNumber.Load()
+}
+
+// VerifC02CommitLocked reports whether the version-set mutex (held for the whole of
+// CommitFamilyEditLog and by NextFileNumber) is currently held.
+func VerifC02CommitLocked(vs StoreVersionSet) bool {
+	s, ok := vs.(*storeVersionSet)
+	if !ok {
+		return false
+	}
+	if s.mutex.TryLock() {
+		s.mutex.Unlock()
+		return false
+	}
+	return true
+}
